@@ -2,8 +2,10 @@ package physical
 
 import (
 	"context"
+	"encoding/json"
 	"fmt"
 	"strings"
+	"unicode/utf8"
 
 	"github.com/cube2222/octosql/execution"
 	"github.com/cube2222/octosql/octosql"
@@ -78,6 +80,34 @@ type Variable struct {
 
 type Constant struct {
 	Value octosql.Value
+}
+
+// constantJSON is the JSON form of a Constant. encoding/json replaces bytes which aren't valid UTF-8 in strings,
+// so such string constants are carried as bytes (base64), otherwise a predicate pushed down to a plugin would change.
+type constantJSON struct {
+	Value    octosql.Value
+	StrBytes []byte `json:",omitempty"`
+}
+
+func (c Constant) MarshalJSON() ([]byte, error) {
+	out := constantJSON{Value: c.Value}
+	if c.Value.TypeID == octosql.TypeIDString && !utf8.ValidString(c.Value.Str) {
+		out.StrBytes = []byte(c.Value.Str)
+		out.Value.Str = ""
+	}
+	return json.Marshal(out)
+}
+
+func (c *Constant) UnmarshalJSON(data []byte) error {
+	var in constantJSON
+	if err := json.Unmarshal(data, &in); err != nil {
+		return err
+	}
+	if in.StrBytes != nil {
+		in.Value.Str = string(in.StrBytes)
+	}
+	c.Value = in.Value
+	return nil
 }
 
 type FunctionCall struct {
